@@ -181,9 +181,16 @@ def rand_value(rng, pool_in, pool_edge, pool_bad):
     return rng.choice(pool_in if x < 0.7 else pool_edge if x < 0.9 else pool_bad)
 
 
-def random_seq(rng):
+# binary64 values that are NOT short dyadic numbers: the exact value of the float is sent to the model, the float
+# arithmetic of ramp() then differs from the rational one in the last ulp ("to float rounding")
+DECIMALS = [Fr(x) for x in (0.1, 0.2, 0.3, 0.7, -0.9, -0.1, 1 / 3, 0.05, -0.35)]
+
+
+def random_seq(rng, decimal=False):
     n = rng.randint(3, 15)
     sp_in = [Fr(k, 8) for k in range(-8, 9)] + [Fr(k, 64) for k in (-63, -1, 1, 63)]
+    if decimal:
+        sp_in = DECIMALS + [Fr(0), Fr(1), Fr(-1)]
     sp_edge = [-2, Fr(-1), Fr(1), 2, -EPS, EPS, 0, Fr(0), True, False, Fr(5, 4), Fr(-9, 8)]
     sp_bad = [None]
     du_in = [0, 20, 100, Fr(5, 2), 1, 40, Fr(1, 4), 1000]
@@ -232,6 +239,8 @@ def generate(ctx):
                     cases.append(("pairs", ("motor", PINS, pre + [a, b])))
     for _ in range(8000 if thorough else 700):
         cases.append(("random", ("motor", PINS, random_seq(rng))))
+    for _ in range(3000 if thorough else 300):
+        cases.append(("random-decimal", ("motor", PINS, random_seq(rng, decimal=True))))
     return cases
 
 
@@ -371,7 +380,7 @@ def run_unit(ctx: C.Ctx) -> dict:
         "rule": ("DCMotor: constructor table (%d pin triples: ints, bools equal to ints, floats, None, duplicates) + every op of the full alphabet "
                  "(%d ops: speeds -2,-1,-1/2,-1/1024,0,1/1024,1/2,1,2,None,True x durations -1,0,20,100,5/2,None,True) followed by invert;invert from 10 "
                  "seed states + exhaustive pairs (quick: %dx%d, thorough: %dx%d and %dx%d) from the same seeds + seeded random histories (3-15 ops; 70%% in "
-                 "range, 20%% boundary, 10%% invalid). evaluations = method calls executed on the real objects and compared field by field with the model; "
+                 "range, 20%% boundary, 10%% invalid; a second stream draws speeds from non-dyadic binary64 values such as 0.1, 0.3, 1/3). evaluations = method calls executed on the real objects and compared field by field with the model; "
                  "distinct non-trivial = distinct (full state before, call) with a non-getter call that raised, changed state or emitted events."
                  % (len(CTORS), len(FULL), len(QUICK), len(QUICK), len(QUICK), len(FULL), len(FULL), len(QUICK))),
         "samples": samples,
